@@ -151,6 +151,26 @@ def nested_differs_from_flat(outer, inner, b, where):
     return (m1 == m2) is False and (m1 != m2) is True
 
 
+BIG = [2**53 + 1, 2**63 - 1, -(2**63) - 1, 10**30 + 7, -(2**53) - 1, 2**31, 0]
+
+
+def load_enum_big(i, base):
+    """integer enumeration values beyond what a double represents exactly load exactly, and a value and its
+    neighbour give unequal models"""
+    from vlib.xhrt import concretize
+
+    x = BIG[concretize(i, len(BIG))]
+    tname = ["integer", "uinteger"][concretize(base, 2)]
+
+    def doc(v):
+        d = empty_doc()
+        d["enumerations"].append({"name": "E", "type": {"kind": "base", "name": tname}, "values": [{"name": "V0", "value": v}, {"name": "V1", "value": 1}]})
+        return d
+
+    m1, m2 = model.LSPModel(**_copy(doc(x))), model.LSPModel(**_copy(doc(x - 1)))
+    return readback(m1) == normal(doc(x)) and (m1 == m2) is False and m1.enumerations[0].values[0].value == x
+
+
 def _copy(x):
     """plain deep copy (json round trips are very slow under the tracer)"""
     if isinstance(x, dict):
@@ -388,7 +408,7 @@ if not os.environ.get("VERIF_XH_WORK"):
     atexit.register(shutil.rmtree, _TMP, True)
 MODEL_FILES = []
 for _i in range(3):
-    _p = os.path.join(_TMP, "m%d.json" % _i)
+    _p = os.path.join(_TMP, ["m%d.json", "ext[v%d].json", "m%d*.json"][_i] % _i)
     with open(_p, "w") as _f:
         json.dump(small_doc(1 << _i, 0, 6, "M%d" % _i), _f)
     MODEL_FILES.append(_p)
@@ -543,8 +563,10 @@ def _violations():
 
 VIOLATIONS = _violations()
 VIOLATION_FILES = []
+# file names a shell user may well have: some contain characters that glob / fnmatch treat as patterns
+BAD_NAMES = ["bad%d.json", "bad[%d].json", "bad-%d-(draft)*.json", "b?d %d.json"]
 for _i, (_n, _d) in enumerate(VIOLATIONS):
-    _p = os.path.join(_TMP, "bad%d.json" % _i)
+    _p = os.path.join(_TMP, BAD_NAMES[_i % len(BAD_NAMES)] % _i)
     with open(_p, "w") as _f:
         json.dump(_d, _f)
     VIOLATION_FILES.append(_p)
